@@ -157,6 +157,7 @@ class Shard:
         self.error = None
         self.unjudged = 0
         self.exhaustive_n = 0
+        self.last_failure = None
 
     def record(self, case, res):
         self.evaluations += 1
@@ -277,6 +278,20 @@ def shard_main(args):
             except PropertyViolation:
                 st.violation = (enc(st.last_failure[0]),
                                 enc(strip(st.last_failure[1])))
+            except Exception as e:
+                # Hypothesis re-runs a failing case; a violation that depends
+                # on state outside the case (buffers shared between calls,
+                # garbage collection) need not show again.  The first
+                # observation stands - the case and what was observed are
+                # recorded.
+                if type(e).__name__ not in ("FlakyFailure", "Flaky") \
+                        or st.last_failure is None:
+                    raise
+                res = dict(st.last_failure[1])
+                res["what"] = res.get("what", "") + (
+                    " [observed once; did not show again when the case was "
+                    "re-run immediately: depends on state outside the case]")
+                st.violation = (enc(st.last_failure[0]), enc(strip(res)))
     except HarnessError as e:
         st.error = f"HarnessError: {e}\n{traceback.format_exc()}"
     except BaseException as e:  # anything else is a bug in /verif
